@@ -16,11 +16,14 @@ def load_spec():
 
 
 def is_io_plumbing(tok):
-    """decision on the Result of an I/O call or on an iterator step (not part of the wire grammar)"""
+    """decision on the Result of a library I/O call or on an iterator step (not part of the wire grammar)"""
     if tok[0] != "when":
         return False
     d = tok[1]
-    return d.startswith("discr(call(") and not d.startswith("discr(call(deserialization::") and not d.startswith("discr(call(serialization::")
+    if not d.startswith("discr(call("):
+        return False
+    inner = d[len("discr(call("):]
+    return inner.startswith(("WriteBytesExt::", "ReadBytesExt::", "Read::", "Write::", "{impl#")) or "::next" in inner.split(")")[0]
 
 
 def is_comparison(desc):
